@@ -205,7 +205,9 @@ mod verif_nx_filefmt {
         let dir = std::env::temp_dir().join(format!("verif_nx_ff_{}", std::process::id()));
         std::fs::create_dir_all(&dir).unwrap();
         let mut n = 0u64;
-        let inputs = ["a:=1;", "a   :=   1  ;      ", "a:=1;\n\n\n\n\n\n", "a :=\u{e9};", "", "BEGIN a; END", "begin a; end"];
+        // the last two are mostly CJK: longer in UTF-8 than in UTF-16, so a length taken from the wrong representation shows
+        let inputs = ["a:=1;", "a   :=   1  ;      ", "a:=1;\n\n\n\n\n\n", "a :=\u{e9};", "", "BEGIN a; END", "begin a; end",
+                      "a  :=  '\u{4e2d}\u{6587}\u{4e2d}\u{6587}\u{4e2d}\u{6587}\u{4e2d}\u{6587}\u{4e2d}\u{6587}\u{4e2d}\u{6587}\u{4e2d}\u{6587}';", "//\u{4e2d}\u{6587}\u{4e2d}\u{6587}\u{4e2d}\u{6587}\u{4e2d}\u{6587}\u{4e2d}\u{6587}\u{4e2d}\u{6587}\u{4e2d}\u{6587}\u{4e2d}\u{6587}\na;"];
         let cases: [(&'static Encoding, &[u8]); 4] = [
             (encoding_rs::UTF_8, &[]), (encoding_rs::UTF_8, &[0xEF, 0xBB, 0xBF]), (encoding_rs::UTF_16LE, &[0xFF, 0xFE]), (encoding_rs::UTF_16BE, &[0xFE, 0xFF]),
         ];
@@ -234,6 +236,27 @@ mod verif_nx_filefmt {
                 n += 1;
             }
         }
+        // files in a configured single-byte / legacy encoding (no BOM): the same clause; texts with characters that are longer in UTF-8
+        for (j, enc) in [encoding_rs::WINDOWS_1252, encoding_rs::SHIFT_JIS, encoding_rs::GBK].iter().enumerate() {
+            for (i, input) in ["a  :=  1; // caf\u{e9} \u{e9}\u{e9}\u{e9}\u{e9}\u{e9}\u{e9}", "a:=1;", "BEGIN  x  :=  '\u{e9}\u{e8}\u{e0}\u{f9}\u{e7}\u{e9}\u{e8}\u{e0}\u{f9}\u{e7}'; END"].iter().enumerate() {
+                let (encoded, _, unmappable) = enc.encode(input);
+                if unmappable { continue; }
+                let bytes = encoded.to_vec();
+                let path = dir.join(format!("g{}_{}.pas", i, j));
+                std::fs::write(&path, &bytes).unwrap();
+                let f = ff(enc);
+                let p = [path.to_string_lossy().to_string()];
+                let mut buf = Vec::new();
+                let d = f.decode_file(&bytes[..], "x", &mut buf).unwrap();
+                let formatted = f.formatter.format(&d.contents, FileOptions::new());
+                let mut exp: Vec<u8> = Vec::new();
+                FileFormatter::write_file(&mut exp, &d, &formatted).unwrap();
+                f.format_files(&p, |e| panic!("unexpected error {e}"), &[]);
+                let got = std::fs::read(&path).unwrap();
+                assert!(got == exp, "OB filefmt/files_mode_bytes: files mode leaves exactly BOM ++ encode(format(decode(bytes))) in the file (no stale tail)\n input={:?} enc={} got={:?} expected={:?}", input, enc.name(), got, exp);
+                n += 1;
+            }
+        }
         // an undecodable file is left untouched and reported
         let path = dir.join("bad.pas");
         let bytes = vec![b'a', 0xFF, b';', b' ', b' '];
@@ -245,6 +268,6 @@ mod verif_nx_filefmt {
         n += 1;
         let _ = std::fs::remove_dir_all(&dir);
         println!("NX filefmt_files_mode: {} cases", n);
-        assert!(n >= 29, "enumeration ran");
+        assert!(n >= 40, "enumeration ran");
     }
 }
